@@ -71,23 +71,30 @@ def make_transform(hits):
 class Rig:
     """The sanitizer build, its environment, and the subprocess runner."""
 
-    def __init__(self, check):
+    def __init__(self, check, transform=True):
         self.check = check
         hits = []
-        try:
+        if not transform:
+            # second rig: the layout as written (the last member of each object ends the malloc'ed block, so an access past
+            # `zero` / `nonce` leaves it - the transformed layout hides that behind the relocated scratch)
+            self.root = overlay.build(os.path.join(check.work, "plain-layout"), sanitize=True)
+            hits = None
+        else:
+          try:
             self.root = overlay.build(check.work, sanitize=True, transform=make_transform(hits))
-        except MachineryError:
+          except MachineryError:
             if not hits:
                 raise          # the untouched source does not compile either
             hits = None        # the transformed source does not compile: plain sanitizer build
             self.root = overlay.build(check.work, sanitize=True)
         self.transformed = sorted(set(hits or []))
-        check.cov["scratch_transform"] = (
+        if transform:
+          check.cov["scratch_transform"] = (
             "applied to " + " and ".join(self.transformed) if len(self.transformed) == 2 else
             "PATTERN NOT FOUND for %s: (partly) untransformed sanitizer build -- an overflow of that scratch into "
             "neighbouring members is then visible to the access model only"
             % sorted({"AEADObject", "HeaderProtectionObject"} - set(self.transformed)))
-        self.shim = os.path.join(check.work, "c04_shim.so")
+        self.shim = os.path.join(check.work, "c04_shim.so" if transform else "c04_shim_plain.so")
         r = subprocess.run(["clang", "-O1", "-g", "-fsanitize=address", "-fno-omit-frame-pointer", "-fPIC", "-shared",
                             SHIM_C, "-o", self.shim, "-lcrypto", "-ldl"], capture_output=True, text=True)
         if r.returncode != 0:
@@ -108,6 +115,8 @@ class Rig:
         self.env = env
         self.lock = threading.Lock()
         self.deaths = 0
+        self.setup_reports = []
+        self.layout = "scratch-last" if transform else "as-written"
         self.canary()
 
     def canary(self):
@@ -144,7 +153,15 @@ class Rig:
             recs = [json.loads(x) for x in open(of) if x.strip()]
             if recs and recs[-1].get("ev") == "end" and p.returncode == 0:
                 break
-            # the worker runs every job in a forked child and should itself never die
+            # the worker runs every job in a forked child and should itself never die - unless the sanitizer stops it inside
+            # the helpers while it prepares its keys (a report with a frame of _crypto.c / _buffer.c is a finding, not a failure)
+            san = classify(p.stderr, self.symtabs)
+            if san and not san.endswith(":?"):
+                with self.lock:
+                    self.setup_reports.append({"tag": tag, "san": san, "report": report_excerpt(p.stderr), "layout": self.layout})
+                    self.deaths += 1
+                recs = [r for r in recs if r.get("ev") not in ("b",)]
+                break
             raise MachineryError("sanitizer worker failed outside the code under check (rc=%s) on %s:\n%s"
                                  % (p.returncode, tag, p.stderr[-3000:]))
         out = []
@@ -406,6 +423,9 @@ def buffer_jobs(rnd, quick):
                 jobs.append({"k": "buf", "cap": cap, "content": content, "pos": pos, "calls": calls, "fresh": 1})
     for v in (0, 1, 4, 1200, 65536, -1, -2, -2 ** 31, -2 ** 63, -2 ** 63 - 1, 2 ** 47, 2 ** 62, 2 ** 63 - 1, 2 ** 63, 2 ** 64):
         jobs.append({"k": "bufnew", "capacity": v})
+    for v in (0, 1, 4, 9, 10, 11, 64, -1):                # capacity and initial contents in one call
+        for nd in (1, 10, 4096):
+            jobs.append({"k": "bufnew", "capacity": v, "data": nd})
     for _ in range(150 if quick else 1500):
         cap = rnd.choice([0, 1, 2, 3, 4, 4, 8, 9, 16, 64, 1200])
         alpha = buffer_alphabet(cap)
@@ -612,13 +632,30 @@ def run(check):
         groups += [("buf%d" % i, c) for i, c in enumerate(chunks(bufs, 3))]
         jobsof = dict(groups)
         futs = {tag: pool.submit(rig.run_chunk, jobs, tag) for tag, jobs in groups}
+        # the same library-made calls once more on the layout as written: one session per cipher suite (the smallest ones)
+        rig2 = Rig(check, transform=False)
+        small = {}
+        for j in sorted(sess, key=lambda j: j["nbytes"]):
+            small.setdefault(j.get("suite"), j)
+        pgroups = [("sessplain%d" % i, [dict(j)]) for i, j in enumerate(small.values())]
+        for tag, jobs in pgroups:
+            jobs[:] = number(jobs)
+        jobsof.update(pgroups)
+        futs.update({tag: pool.submit(rig2.run_chunk, jobs, tag) for tag, jobs in pgroups})
         model_results(check, f_sweep.result(), f_small.result(), f_buf.result(), m)
         direct = number(near_jobs(m["near"], rnd) + sample_jobs(rnd, 300 if quick else 3000))
         dgroups = [("direct%d" % i, c) for i, c in enumerate(chunks(direct, 10))]
         jobsof.update(dgroups)
         futs.update({tag: pool.submit(rig.run_chunk, jobs, tag) for tag, jobs in dgroups})
+        pdirect = [("directplain0", number([dict(j) for j in direct[::max(1, len(direct) // 120)]]))]
+        jobsof.update(pdirect)
+        futs.update({tag: pool.submit(rig2.run_chunk, jobs, tag) for tag, jobs in pdirect})
         recs = {tag: f.result() for tag, f in futs.items()}
 
+    for rep in rig.setup_reports + rig2.setup_reports:
+        kind, rw, func = (rep["san"].split(":") + ["", ""])[:3]
+        check.violation("memsafe:%s:sanitizer:%s:%s:worker-process:layout=%s" % (func, kind, rw, rep["layout"]),
+                        {"kind": "sanitizer report while the worker prepared its objects", "detail": rep})
     jobmap = {}
     for tag, jobs in jobsof.items():
         for k, j in enumerate(jobs):
@@ -646,7 +683,8 @@ def run(check):
     check.cov["sessions_started"] = len(sess)
     check.cov["hostile_datagrams"] = sum(len(j["dgrams"]) for j in host)
     check.cov["api_exceptions_seen_(not_judged_here)"] = apiexc
-    check.cov["sanitizer_process_deaths"] = rig.deaths
+    check.cov["sanitizer_process_deaths"] = rig.deaths + rig2.deaths
+    check.cov["second_rig_layout_as_written"] = {"sessions": len(pgroups), "direct_calls": len(pdirect[0][1])}
 
     dc = judge_crypto(check, clines, jobmap, "TraceMemSafe_RV")
     db = judge_buffer(check, blines, jobmap, "TraceBufferModel_R")
